@@ -217,7 +217,8 @@ def r3_r4_guard_and_target(ctx, rep, R3='C15.R3', R4='C15.R4'):
     consts = m.module('find').constants
     from .common import guard_literals
     lits = [(e, pos) for e, pos in guard_literals(ctx, fi, u)
-            if not norm(e).endswith('keepbytecode') and "'__pycache__' in" not in norm(e)]
+            if not norm(e).endswith('keepbytecode') and "'__pycache__' in" not in norm(e) and
+            not (is_name(e, files) and pos)]        # "the listing is not empty" is implied by the loop
     suffix = [(e, pos) for e, pos in lits if _suffix_test(e, fvar, consts)]
     beside = [(e, pos) for e, pos in lits if _source_beside(e, fvar, files)]
     other = [norm(e) for e, pos in lits if not _suffix_test(e, fvar, consts) and
@@ -236,6 +237,17 @@ def r3_r4_guard_and_target(ctx, rep, R3='C15.R3', R4='C15.R4'):
     outer_loops = [p for p in _parents(wl, fi.node) if isinstance(p, (ast.For, ast.While))]
     esc = [x for lp in [fl, wl] + outer_loops for x in ast.walk(lp)
            if isinstance(x, (ast.Break, ast.Return))]
+    # a ``continue`` that belongs to the walk loop (or a loop around it) skips the file scan of a
+    # whole directory -- wherever it stands (also in an exception handler); one that belongs to the
+    # loop over the files is an ordinary guard and is judged through the guard literals above
+    for x in ast.walk(wl):
+        if isinstance(x, ast.Continue):
+            near = [p for p in _parents(x, fi.node) if isinstance(p, (ast.For, ast.While))]
+            if near and near[0] is not fl and not any(near[0] is q for q in ast.walk(fl)):
+                from .common import guard_literals as _gl
+                if any(is_name(e, files) and not pos for e, pos in _gl(ctx, fi, x)):
+                    continue          # nothing to scan in an empty listing
+                esc.append(x)
     skip = [norm(e) for e, pos in guard_literals(ctx, fi, wl.iter)
             if not norm(e).endswith('keepbytecode')]
     rep.check(not esc and not skip, R3, 'every file of every directory of every search root is examined',
